@@ -42,7 +42,7 @@ def gen_program(rng):
         for _ in range(n):
             k = rng.random()
             if k < 0.45:
-                op = ["cb", rng.choice(["ret", "ret", "raise", "arity"])]
+                op = ["cb", rng.choice(["ret", "ret", "raise", "arity", "typeerr-noextra", "ret-noextra"])]
                 if rng.random() < 0.25:
                     op.append(rng.choice(["partial", "object"]))
                 out.append(op)
@@ -118,6 +118,13 @@ class FutRun(object):
                 record(result, exception, extra)
                 raise CallbackError(reg)
             return cb
+        if kind in ("typeerr-noextra", "ret-noextra"):
+            # registered without an extra argument; tolerant signature; may fail with a TypeError of its own
+            def cb(result, exception, extra=None):
+                s.emit("cb.call", reg, result is run.obj, result is None, exception is run.exc, exception is None, extra is None)
+                if kind == "typeerr-noextra":
+                    raise TypeError("unsupported operand inside the callback")
+            return cb
 
         def cb(result, exception, extra):
             record(result, exception, extra)
@@ -139,7 +146,10 @@ class FutRun(object):
                     except TaskError as ex:
                         out = "raised:%s" % (ex is self.exc)
                 elif name == "cb":
-                    fut.set_callback(self.make_cb(reg, op[1], op[2] if len(op) > 2 else None), reg)
+                    if op[1].endswith("-noextra"):
+                        fut.set_callback(self.make_cb(reg, op[1], op[2] if len(op) > 2 else None))
+                    else:
+                        fut.set_callback(self.make_cb(reg, op[1], op[2] if len(op) > 2 else None), reg)
                 elif name == "done":
                     out = "done:%s" % bool(fut.done())
                 elif name == "res":
